@@ -337,6 +337,46 @@ fn nudge(ip: &str, fp: &str, how: u8) -> (String, u32) {
     (digits, scale)
 }
 
+/// The midpoint's expansion cut to `k` significant digits: truncated (just
+/// below the midpoint) or with the last kept digit raised (just above). For k
+/// around 15..17 the literal is closer to the midpoint than the spacing of the
+/// doubles there, which is where parsing via a wider type rounds twice.
+fn round_sig(ip: &str, fp: &str, k: usize, up: bool) -> (String, u32) {
+    let all = format!("{ip}{fp}").into_bytes();
+    let Some(first) = all.iter().position(|c| *c != b'0') else { return (String::from_utf8(all).unwrap(), fp.len() as u32) };
+    let cut = first + k;
+    if cut >= all.len() {
+        return (String::from_utf8(all).unwrap(), fp.len() as u32);
+    }
+    let mut d = all[..cut].to_vec();
+    let mut grew = 0usize;
+    if up {
+        let mut i = d.len();
+        loop {
+            if i == 0 {
+                d.insert(0, b'1');
+                grew = 1;
+                break;
+            }
+            i -= 1;
+            if d[i] == b'9' {
+                d[i] = b'0';
+            } else {
+                d[i] += 1;
+                break;
+            }
+        }
+    }
+    let ip_len = ip.len() + grew;
+    if d.len() < ip_len {
+        d.resize(ip_len, b'0');
+        (String::from_utf8(d).unwrap(), 0)
+    } else {
+        let scale = (d.len() - ip_len) as u32;
+        (String::from_utf8(d).unwrap(), scale)
+    }
+}
+
 fn halfway_case() -> impl Strategy<Value = Case> {
     let style = || (style_strategy(0), prop_oneof![3 => Just(0i32), 1 => -40i32..40]).prop_map(|(mut st, sh)| {
         st.exp_shift = sh;
@@ -352,6 +392,22 @@ fn halfway_case() -> impl Strategy<Value = Case> {
             let (ip, fp) = midpoint_f32(bits);
             let (digits, scale) = nudge(&ip, &fp, how);
             Case::Float { single: true, lit: render(neg, &digits, scale, &st), halfway: true }
+        }),
+        // midpoints cut to k significant digits (short literals next to a midpoint)
+        (f32_pattern(), 6usize..=20, any::<bool>(), any::<bool>(), style()).prop_map(|(bits, k, up, neg, st)| {
+            let (ip, fp) = midpoint_f32(bits);
+            let (digits, scale) = round_sig(&ip, &fp, k, up);
+            Case::Float { single: true, lit: render(neg, &digits, scale, &st), halfway: true }
+        }),
+        (f32_pattern(), 12usize..=17, any::<bool>(), any::<bool>()).prop_map(|(bits, k, up, neg)| {
+            let (ip, fp) = midpoint_f32(bits);
+            let (digits, scale) = round_sig(&ip, &fp, k, up);
+            Case::Float { single: true, lit: render(neg, &digits, scale, &Style::plain()), halfway: true }
+        }),
+        (f64_pattern(), 15usize..=30, any::<bool>(), any::<bool>(), style()).prop_map(|(bits, k, up, neg, st)| {
+            let (ip, fp) = midpoint_f64(bits);
+            let (digits, scale) = round_sig(&ip, &fp, k, up);
+            Case::Float { single: false, lit: render(neg, &digits, scale, &st), halfway: true }
         }),
         // an f32 midpoint read as f64 and vice versa (double rounding traps)
         (f32_pattern(), 0u8..3, any::<bool>()).prop_map(|(bits, how, neg)| {
@@ -469,4 +525,27 @@ fn run(e: &Engine) {
     if e.tier == crate::engine::Tier::Thorough {
         e.fuzz("fuzz-c08_dec", "c08_dec", 64_000_000, |b| decode_text(b).unwrap_or(Case::BoolLit { lit: "0".into() }), check);
     }
+    // bounded-exhaustive: EVERY letter string up to a length as a character datum for bool, f32, f64
+    const LETTERS: &[u8] = b"ABCDEFGHIJKLMNOPQRSTUVWXYZ";
+    let kw = crate::gen::enumstr::Partitioned { alpha: LETTERS, max_len: if cfg!(debug_assertions) { e.tier.pick(3usize, 4) } else { e.tier.pick(5usize, 6) }, prefix_len: 2 };
+    let kwr = &kw;
+    e.enumerate::<Case, _, _>(
+        "every-letter-string-as-keyword",
+        kw.parts() * 3,
+        move |p, f| {
+            let which = p / kwr.parts();
+            kwr.run(p % kwr.parts(), &mut |s| {
+                if s.is_empty() {
+                    return true;
+                }
+                let word = String::from_utf8_lossy(s).into_owned();
+                f(match which {
+                    0 => Case::BoolWord { word },
+                    1 => Case::FloatWord { single: true, word },
+                    _ => Case::FloatWord { single: false, word },
+                })
+            })
+        },
+        check,
+    );
 }
